@@ -11,6 +11,7 @@ Step(e) ==
   \/ e.ev = "Begin" /\ seen' = [i \in 1..e.n |-> NoRes]
   \/ e.ev = "Call" /\ Return(e.id, e.res)
   \/ e.ev = "Result" /\ UNCHANGED seen
+  \/ e.ev = "Outcome" /\ UNCHANGED seen
 ResultVerdict(e) ==
   IF ~Faithful(e.res, e.cause) THEN "bad:unfaithful:" \o e.cause \o "->" \o e.res.kind
   ELSE IF e.fmt = "json" /\ \E i \in 1..Len(e.locs) : ~Resolves(e.val, e.locs[i], 1) THEN "bad:location-does-not-resolve"
@@ -18,6 +19,10 @@ ResultVerdict(e) ==
 Init == l = 1 /\ ApiInit
 Matched == /\ l <= Len(Rec) /\ Step(Rec[l]) /\ l' = l + 1
            /\ (IF Rec[l].ev = "Result" /\ ResultVerdict(Rec[l]) # "ok" THEN PrintT("V " \o ToJson([l |-> l, v |-> ResultVerdict(Rec[l])])) ELSE TRUE)
+           \* "Outcome" {kind, n, us}: one call of an entry point on an input of n bytes that took us microseconds (C05)
+           /\ (IF Rec[l].ev = "Outcome" /\ ~Total(Rec[l].kind) THEN PrintT("V " \o ToJson([l |-> l, v |-> "bad:no-return:" \o Rec[l].kind]))
+               ELSE IF Rec[l].ev = "Outcome" /\ ~WithinBound(Rec[l].n, Rec[l].us) THEN PrintT("V " \o ToJson([l |-> l, v |-> "bad:too-slow"]))
+               ELSE TRUE)
 \* a Call that contradicts the history is not a behaviour of Api: recorded, and the trace goes on
 Mismatch == /\ l <= Len(Rec) /\ Rec[l].ev = "Call" /\ ~ENABLED Step(Rec[l])
             /\ PrintT("V " \o ToJson([l |-> l, v |-> "bad:not-functional"]))
